@@ -9,9 +9,9 @@ set -u
 LANE="$1"; ID="$2"; I="$3"; shift 3
 CHECKS="${*:-C01 C02 C03 C04 C05 C06 C07 C08 C09 C10 C11 C12 C13 C14 C15 C16 C17 C18 C19 C20}"
 S=/root/scratch/lane$LANE
-SEED=/tmp/seed/$ID
+SEED=${SEEDROOT:-/tmp/seed}/$ID
 DIFF=$SEED/out/change$I.diff
-OUT=/verif/seeded/$ID-$I
+OUT=/verif/seeded/$ID-$(( I + ${OUTOFFSET:-0} ))
 export CARGO_NET_OFFLINE=true
 [[ -f "$DIFF" ]] || { echo "no diff $DIFF"; exit 2; }
 mkdir -p "$OUT"
@@ -44,12 +44,13 @@ for c in $CHECKS; do
   if [[ $rc -ne 1 ]]; then rm -f $OUT/run-$c.log; else grep -m3 "^violation" $OUT/run-$c.log | cut -c1-600 > $OUT/first-$c.txt; rm -f $OUT/run-$c.log; fi
 done
 git -C $S/repo checkout -q -- .
-python3 - "$ID" "$I" "$SUITE" "$DEMO_WITH" "$DEMO_WITHOUT" "$CAUGHT" <<'PY'
+python3 - "$ID" "$(( I + ${OUTOFFSET:-0} ))" "$SUITE" "$DEMO_WITH" "$DEMO_WITHOUT" "$CAUGHT" <<'PY'
 import json,sys,os
 id_,i,suite,dw,dwo,caught=sys.argv[1:7]
 out=f"/verif/seeded/{id_}-{i}"
 desc=""
-p=f"/tmp/seed/{id_}/out/change{i}.md"
+import os as _o
+p=_o.environ.get("SEEDROOT","/tmp/seed")+f"/{id_}/out/change{int(i)-int(_o.environ.get('OUTOFFSET','0'))}.md"
 if os.path.exists(p):
     desc=open(p).read()
     open(out+"/change.md","w").write(desc)
